@@ -27,8 +27,9 @@ REAL = ["rpylib.montecarlo.multilevel.criteria (compute_mc_paths_giles, criteria
         "rpylib.montecarlo.statistic", "rpylib.montecarlo.path", "rpylib.product.*"]
 STUB = ["coupling process -> scenarios.stubs.ScriptedCoupling", "pathos pool -> SimPool", "clock/pid/entropy/RNG seams",
         "gmpy2.qdiv, tqdm"]
-ASSUMPTIONS = ["the remaining bias of level means m*2^(-l) with weak rate 1 is the last mean (geometric series): used to "
-               "measure the squared-bias tolerance of the stopping test without reading its constant",
+ASSUMPTIONS = ["a level mean m observed k levels below the top implies a remaining bias (m / 2^(k alpha)) / (2^alpha - 1) at "
+               "weak rate alpha (geometric tail): used to measure the squared-bias tolerance of the stopping test for "
+               "k = 0, 1, 2 and alpha in {0.5, 0.75, 1, 1.5, 2} without reading its constant",
                "the allocation inequality is decided only for the vectors the runs produce plus the probe family"]
 TIERS = {
     "quick": {"worlds": 600, "wall": 520, "shrink_budget": 50,
@@ -59,17 +60,30 @@ def measure_shares():
         rmse = 1e-3
         N = np.asarray(compute_mc_paths_giles(rmse, V, C), dtype=float)
         s = max(s, float(np.sum(V / N) / rmse ** 2))
-    # stopping test: largest t with criteria(1, [4t, 2t, t], rmse) true  ->  tau = t / rmse, b = tau^2
+    # stopping test. A level mean m observed k levels below the top implies, at weak rate alpha, a remaining bias of
+    # (m / 2^(k alpha)) / (2^alpha - 1) (geometric tail). For each k in {0,1,2} and several alpha the largest accepted m
+    # is found by bisection with the other two means at zero: tau_k(alpha) = implied bias / rmse; b = max tau^2.
+    # (the geometric sequence [4t, 2t, t] at alpha = 1 is the case where the three terms tie)
     rmse = 1.0
-    lo, hi = 0.0, 4.0
-    for _ in range(60):
-        mid = 0.5 * (lo + hi)
-        if criteria_giles(1.0, np.array([4 * mid, 2 * mid, mid]), rmse):
-            lo = mid
-        else:
-            hi = mid
+    b = 0.0
+    worst = None
+    for alpha in (0.5, 0.75, 1.0, 1.5, 2.0):
+        for k in (0, 1, 2):
+            lo, hi = 0.0, 64.0
+            for _ in range(60):
+                mid = 0.5 * (lo + hi)
+                ml = np.zeros(3)
+                ml[2 - k] = mid
+                if criteria_giles(alpha, ml, rmse):
+                    lo = mid
+                else:
+                    hi = mid
+            tau = (lo / 2.0 ** (k * alpha)) / (2.0 ** alpha - 1.0) / rmse
+            if tau ** 2 > b:
+                b, worst = tau ** 2, (alpha, k)
+    measure_shares.worst = worst
     # the supremum over a finite probe family under-estimates the share by the ceiling effect (~1e-7 relative)
-    return s * (1 + 1e-5), lo ** 2
+    return s * (1 + 1e-5), b
 
 
 def probe_family(seed):
@@ -95,7 +109,8 @@ def execute(wd, sc):
     wd.probes["c06.share_measured"] += 1
     if s + b > 1.0 + 1e-4:
         V.append({"sig": "C06.A|variance share of the allocation plus squared-bias share of the stopping test exceeds rmse^2",
-                  "oracle": "A", "detail": {"variance_share": round(s, 6), "squared_bias_share": round(b, 6)}})
+                  "oracle": "A", "detail": {"variance_share": round(s, 6), "squared_bias_share": round(b, 6),
+                                            "binding (alpha, levels below the top)": getattr(measure_shares, "worst", None)}})
     for (rmse, vv, cc) in probe_family(sc["world_seed"]):
         vv, cc = np.array(vv), np.array(cc)
         N = np.asarray(compute_mc_paths_giles(rmse, vv, cc), dtype=float)
